@@ -19,8 +19,8 @@ RULE = ("pairs of real wormholes through the real server (bridging server when a
         "exchanged PAKE messages (or, for never-met, both closed Lonely); distinct = (class, entry "
         "mode, codes, appids).")
 ASSUMPTIONS = ["codes <= 60 chars, <= 6 words; BMP plus a few astral characters"]
-FLOORS = {"quick": {"match_cases": 100, "mismatch_cases": 150, "pake_before_code": 10, "derive_checks": 1000, "bystander_pairs": 100, "derive_in_key_notification": 80, "derive_after_close": 500, "mailbox_connections_lost": 100},
-          "thorough": {"match_cases": 4000, "mismatch_cases": 6000, "pake_before_code": 400, "derive_checks": 40000, "bystander_pairs": 4000, "derive_in_key_notification": 3000, "derive_after_close": 20000, "mailbox_connections_lost": 4000}}
+FLOORS = {"quick": {"class_whitespace": 15, "match_cases": 100, "mismatch_cases": 150, "pake_before_code": 10, "derive_checks": 1000, "bystander_pairs": 100, "derive_in_key_notification": 80, "derive_after_close": 500, "mailbox_connections_lost": 100},
+          "thorough": {"class_whitespace": 300, "match_cases": 4000, "mismatch_cases": 6000, "pake_before_code": 400, "derive_checks": 40000, "bystander_pairs": 4000, "derive_in_key_notification": 3000, "derive_after_close": 20000, "mailbox_connections_lost": 4000}}
 CLASSES = ["same", "same", "nfc", "nfc", "onechar", "case", "extraword", "missingword", "compat",
            "nameplate", "appid", "appid+same-nfc", "nameplate-spelling", "whitespace"]
 WORDS = ["café", "naïve", "purple", "sausages", "한글", "éclair", "ångström", "ǆemal",
